@@ -1,7 +1,8 @@
 (* C12 -- executable model of internal/corerad/verify.go (verifyRAs and its helpers) and of the
    router-advertisement branch of Advertiser.handle (advertise.go), as the code is after
    fix 26ec7a7 (MTU / captive portal by value) and fixes/c12-wire-granularity.diff (durations
-   compared at the granularity with which the wire carries them).  Definitions only. *)
+   compared at the granularity with which the wire carries them; RDNSS server addresses compared
+   without their zones, i.e. as the 128-bit values that model addresses are).  Definitions only. *)
 From CR Require Export Model.Types.
 Local Open Scope Z_scope.
 
